@@ -124,10 +124,19 @@ pub fn builder_with<CC: ChunkCreator>(cfg: &SorterCfg, creator: CC) -> SorterBui
 
 pub fn configure<MF, CC>(cfg: &SorterCfg, b: &mut SorterBuilder<MF, CC>) {
     grenad::verif::set_sorter_constants(cfg.min_memory, cfg.initial);
-    if let Some(t) = cfg.dump_threshold {
-        b.dump_threshold(t);
+    // the setters are independent: both orders of the two that interact in `build` (the threshold
+    // and the reallocation policy decide the initial capacity) are used, tied to `settings_first`
+    if !cfg.settings_first {
+        if let Some(t) = cfg.dump_threshold {
+            b.dump_threshold(t);
+        }
     }
     b.allow_realloc(cfg.allow_realloc);
+    if cfg.settings_first {
+        if let Some(t) = cfg.dump_threshold {
+            b.dump_threshold(t);
+        }
+    }
     if let Some(m) = cfg.max_nb_chunks {
         b.max_nb_chunks(m);
     }
